@@ -289,6 +289,11 @@ func (s *Seq) exec(op *Op) {
 		s.W.Sleep(time.Duration(op.Ms) * time.Millisecond)
 	case "create":
 		s.opCreate(op)
+	case "await":
+		s.opAwait(op)
+	}
+	if s.Prof.AsyncOracles && s.Cfg.Async {
+		s.checkNoGhostFiles("after-" + op.K)
 	}
 	s.sinceReopen++
 }
@@ -527,6 +532,9 @@ func (s *Seq) opFlush(op *Op) {
 	}
 	if err != nil {
 		s.fail("read", "flush-failed:"+op.Mode, "flush(%s) failed: %v", op.Mode, err)
+	}
+	if s.Cfg.Async && (op.Mode == "all" || op.Mode == "allcommit") {
+		s.afterFlushCall(op.Mode)
 	}
 }
 
